@@ -9,7 +9,8 @@ import copy
 import random
 from typing import Any, List, Optional, Tuple
 
-NAMES = ["@mA_", "@mB_", "@mC_", "@mD_", "@mE_", "@mF_"]
+# names of different lengths, none contained in another (an expander that reorders macros by name must not matter)
+NAME_POOL = ["@q_", "@macro_B_", "@zz_c_", "@d1_", "@long_name_E_", "@f_", "@mG_", "@a_very_long_macro_name_H_"]
 
 
 class Opaque(dict):
@@ -88,7 +89,10 @@ class Factoring:
         self.resub_used = False
 
     def new_name(self) -> Optional[str]:
-        return NAMES[len(self.macros)] if len(self.macros) < len(NAMES) else None
+        if not hasattr(self, "_names"):
+            self._names = list(NAME_POOL)
+            self.rng.shuffle(self._names)
+        return self._names[len(self.macros)] if len(self.macros) < 6 else None
 
     def step(self) -> bool:
         rng = self.rng
